@@ -823,3 +823,67 @@ func checkConfigIntCodec(cx *CheckCtx, rule string) {
 	cx.count("deploy_int_encoders", n)
 	cx.floor("deploy_int_encoders", 1)
 }
+
+// checkHashFromVarint: a script hash (or id, or key) is a fixed-width byte
+// string; convert.ToBytes gives the *minimal signed* little-endian bytes of an
+// integer. A function of the contracts or of package common whose result type
+// is one of the fixed-width interop types and that returns convert.ToBytes(…)
+// as it is loses every trailing 0x00 (or 0xFF) byte that the sign rule makes
+// redundant: about one address in 256 comes back 19 bytes long, and the
+// contract that resolves its peers through NNS at deployment cannot be deployed.
+func checkHashFromVarint(cx *CheckCtx) {
+	w := cx.W
+	n := 0
+	for _, p := range w.Pkgs {
+		rel := strings.TrimPrefix(p.PkgPath, modPrefix)
+		if !(strings.HasPrefix(rel, "contracts/") || rel == "common") {
+			continue
+		}
+		sp := w.Prog.Package(p.Types)
+		if sp == nil {
+			continue
+		}
+		for _, fn := range allFuncs(sp) {
+			if fn.Blocks == nil || fn.Signature.Results().Len() != 1 {
+				continue
+			}
+			rt, ok := fn.Signature.Results().At(0).Type().(*types.Named)
+			if !ok || rt.Obj().Pkg() == nil || !strings.HasSuffix(rt.Obj().Pkg().Path(), "pkg/interop") {
+				continue
+			}
+			switch rt.Obj().Name() {
+			case "Hash160", "Hash256", "PublicKey":
+			default:
+				continue
+			}
+			n++
+			bad := ""
+			for _, b := range fn.Blocks {
+				ret, isRet := b.Instrs[len(b.Instrs)-1].(*ssa.Return)
+				if !isRet {
+					continue
+				}
+				v := ret.Results[0]
+				for {
+					switch x := v.(type) {
+					case *ssa.ChangeType:
+						v = x.X
+						continue
+					case *ssa.Convert:
+						v = x.X
+						continue
+					}
+					break
+				}
+				if c, isCall := v.(*ssa.Call); isCall {
+					if cal := c.Common().StaticCallee(); cal != nil && fq(cal) == "convert.ToBytes" {
+						bad = w.pos(ret.Pos())
+					}
+				}
+			}
+			cx.decide(bad == "", "names", "fixed-width-result/"+fq(fn), "a "+rt.Obj().Name()+" result is not the minimal integer encoding of a number", fq(fn)+" returns convert.ToBytes(…) as a "+rt.Obj().Name()+" (at "+bad+"): the minimal signed encoding drops a trailing 0x00/0xFF byte, so one value in 256 comes back a byte short — a contract name resolved through NNS is then not a contract hash, and the contracts that subscribe to their peers at deployment cannot be deployed", w.pos(fn.Pos()))
+		}
+	}
+	cx.count("fixed_width_result_functions", n)
+	cx.floor("fixed_width_result_functions", 5)
+}
